@@ -64,8 +64,9 @@ TFrame(entry, eoo, spec, ntags, tag, indef, cid, collect, pos, cstart, flen) ==
    nxt |-> cstart]        \* where the next member has to start
 TopF == fr[Len(fr)]
 (* named deviation of the code, outside the listed properties: the decoder of an explicitly tagged CHOICE matches its   *)
-(* wrapper tag by class and number only and unwraps a wrapper flagged primitive (87 04 02 02 ff 7f under [7] CHOICE)     *)
-PrimitiveChoiceWrapper(f, childspec) == f.spec = "plain" /\ f.dec = "concrete" /\ f.tag.c # 0 /\ childspec = 3
+(* wrapper tag by class and number only and unwraps a wrapper flagged primitive (87 04 02 02 ff 7f under [7] CHOICE),    *)
+(* whether the CHOICE is the guide itself or was picked from the tag map of a SEQUENCE / SET position                  *)
+PrimitiveChoiceWrapper(f, childspec) == f.spec # "none" /\ f.dec = "concrete" /\ f.tag.c # 0 /\ childspec = 3
 ReplaceF(f) == [fr EXCEPT ![Len(fr)] = f]
 PopF == SubSeq(fr, 1, Len(fr) - 1)
 (* the innermost frame returns at position p: its caller's next member starts there *)
